@@ -1,3 +1,139 @@
-"""pyvc.stubs - assumed contracts for objects of external classes (pysam records, file handles).
-STUBS[class name] = {'methods': {name: fn(eng, obj, *args)}, 'props': {name: fn(eng,obj)}, 'setters': {...}}"""
-STUBS = {}
+"""pyvc.stubs - assumed contracts for objects of external classes (pysam records, files).
+STUBS[class name] = {'methods': {name: fn(eng, obj, *args)}, 'props': {name: fn(eng,obj)}, 'setters': {...}}
+
+pysam.AlignedSegment is modelled as a record of independent fields (DESIGN appendix C):
+flag bits, reference_name/start/end, mapping_quality, cigarstring, query_name/sequence/qualities and a
+finite map of tags; has_tag/get_tag/set_tag read and write that map; get_tag of an absent tag raises KeyError."""
+import z3
+
+from .engine import (Obj, Sym, Unsupported, PyRaise, INT, BOOL, REAL, STR, fresh, named, zterm, is_sym, concretize,
+                     _fresh_counter)
+
+FLAG_FIELDS = ['is_read1', 'is_read2', 'is_qcfail', 'is_duplicate', 'is_unmapped', 'is_reverse', 'is_paired',
+               'is_proper_pair', 'mate_is_unmapped', 'is_secondary', 'is_supplementary', 'mate_is_reverse']
+
+
+def make_read(eng, name, tags=None, fields=None, mapped=True):
+    """Arbitrary alignment record.  tags: {TAG: type}; every tag is optionally present."""
+    attrs = {}
+    for f in FLAG_FIELDS:
+        attrs[f] = named(BOOL, '%s.%s' % (name, f))
+    attrs['mapping_quality'] = named(INT, name + '.mapping_quality')
+    eng.assume(attrs['mapping_quality'].z >= 0)
+    attrs['reference_name'] = named(STR, name + '.reference_name')
+    attrs['query_name'] = named(STR, name + '.query_name')
+    if mapped:
+        attrs['reference_start'] = named(INT, name + '.reference_start')
+        attrs['reference_end'] = named(INT, name + '.reference_end')
+        eng.assume(attrs['reference_start'].z >= 0)
+        eng.assume(attrs['reference_end'].z > attrs['reference_start'].z)
+        attrs['cigarstring'] = named(STR, name + '.cigarstring')
+        eng.assume(z3.Not(attrs['is_unmapped'].z))
+    else:
+        attrs['reference_start'] = None
+        attrs['reference_end'] = None
+        attrs['cigarstring'] = None
+        eng.assume(attrs['is_unmapped'].z)
+    for k, v in (fields or {}).items():
+        attrs[k] = v(eng, name + '.' + k) if callable(v) else (named(v, name + '.' + k) if v in (INT, BOOL, REAL, STR) else v)
+    tg = {}
+    for t, ty in (tags or {}).items():
+        tg[t] = [named(BOOL, '%s.has_%s' % (name, t)), named(ty, '%s.tag_%s' % (name, t))]
+    attrs['_vc_tags'] = tg
+    o = Obj('AlignedSegment', attrs)
+    eng.witness[name] = o
+    return o
+
+
+def _tag_entry(obj, tag):
+    tag = concretize(tag)
+    if is_sym(tag):
+        raise Unsupported('tag name must be concrete')
+    tg = obj.attrs['_vc_tags']
+    if tag not in tg:
+        raise Unsupported('read stub does not declare tag %r (add it to the contract)' % tag)
+    return tg[tag]
+
+
+def read_has_tag(eng, obj, tag):
+    p = _tag_entry(obj, tag)[0]
+    return concretize(p) if is_sym(p) else p
+
+
+def read_get_tag(eng, obj, tag, *a, **k):
+    ent = _tag_entry(obj, tag)
+    if not eng.pure:
+        if not eng.branch(zterm(ent[0], BOOL)):
+            raise PyRaise('KeyError', "tag '%s' not present" % tag)
+    return ent[1]
+
+
+def read_set_tag(eng, obj, tag, value, value_type=None, replace=True):
+    tag = concretize(tag)
+    tg = obj.attrs['_vc_tags']
+    if value is None:
+        if tag in tg:
+            tg[tag][0] = False
+        return None
+    if tag not in tg:
+        tg[tag] = [True, value]
+    else:
+        tg[tag][0] = True
+        tg[tag][1] = value
+    return None
+
+
+STUBS = {
+    'AlignedSegment': {
+        'methods': {'has_tag': read_has_tag, 'get_tag': read_get_tag, 'set_tag': read_set_tag},
+        'props': {}, 'setters': {},
+    },
+}
+
+
+class ObjSeq:
+    """Unbounded sequence of arbitrary objects produced by a factory ("independent foreach": an
+    inductive loop sees one arbitrary element per iteration; elements cannot be referred to across
+    iterations)."""
+
+    def __init__(self, factory, name='seq'):
+        self.factory = factory
+        self.n = z3.Int('%s!%d.len' % (name, next(_fresh_counter)))
+        self.name = name
+
+    def vc_indexable(self, eng):
+        eng.assume(self.n >= 0)
+        return self
+
+    def at(self, eng, k):
+        o = self.factory(eng, '%s_elem' % self.name)
+        eng.witness['%s_elem' % self.name] = o
+        return o
+
+    def has(self, k):
+        return k < self.n
+
+    def reached(self, k):
+        return k <= self.n
+
+    def exhausted(self, k):
+        return k >= self.n
+
+    def vc_iter(self, eng):
+        raise Unsupported('iteration over an unbounded object sequence needs a loop contract')
+
+
+def alignment_file(eng, read_factory, extra_methods=None):
+    """pysam.AlignmentFile stub: context manager; fetch() returns an arbitrary sequence of records made by
+    read_factory (the overlap-with-window guarantee of fetch is an assumed contract the factory may encode)."""
+    o = Obj('AlignmentFile', {})
+    o.vc_immutable = True
+    methods = {
+        '__enter__': lambda eng_, obj: obj,
+        '__exit__': lambda eng_, obj, *a: None,
+        'fetch': lambda eng_, obj, *a, **k: ObjSeq(lambda e, nm: read_factory(e, nm, a, k), 'fetch'),
+        'close': lambda eng_, obj: None,
+    }
+    methods.update(extra_methods or {})
+    STUBS['AlignmentFile'] = {'methods': methods, 'props': {}, 'setters': {}}
+    return o
